@@ -14,7 +14,7 @@ from .common import *
 from .lists import show_atoms, atoms_modes
 
 GAPS = ['none', 'space', 'block', 'line']
-ITEMS = ['none', 'bare', 'paren', 'star']
+ITEMS = ['none', 'bare', 'paren', 'star', 'paren-empty', 'paren-only-block', 'paren-only-line', 'paren-trailing-line']
 
 
 def explore(S, want=('C04', 'C06', 'C05')):
@@ -27,7 +27,13 @@ def explore(S, want=('C04', 'C06', 'C05')):
             continue
 
         def body(ctx, g1=g1, g2=g2, items=items):
+            passed = []
+
             def conv_items(m, a, ci):
+                # opaque (decided in the list / C19 harnesses); the nodes handed over are recorded: comments among them count as kept there
+                v = m.load(a[2]) if isinstance(a[2], Ref) else a[2]
+                for x in getattr(v, 'items', ()):
+                    passed.append(m.load(x) if isinstance(x, Ref) else x)
                 return D.opaque_doc('items')
 
             def conv_expr(m, a, ci):
@@ -55,6 +61,25 @@ def explore(S, want=('C04', 'C06', 'C05')):
                     kids.append(it)
                 elif items == 'paren':
                     kids += [Node(kt.k('LeftParen'), text=Str.lit('(')), it, Node(kt.k('RightParen'), text=Str.lit(')'))]
+                elif items.startswith('paren-'):
+                    # shapes taken from real parses: an empty ImportItems leaf; comments between the parentheses are children of the import itself
+                    empty = Node(kt.k('ImportItems'), text=Str.lit(''))
+                    inner = []
+                    if items == 'paren-only-block':
+                        c = Node(kt.k('BlockComment'), text=Str.lit('/*c3*/'))
+                        cmts.append(c)
+                        inner = [empty, c]
+                    elif items == 'paren-only-line':
+                        c = Node(kt.k('LineComment'), text=Str.lit('//c3'))
+                        cmts.append(c)
+                        inner = [empty, Node(kt.k('Space'), text=Str.lit('\n')), c, Node(kt.k('Space'), text=Str.lit('\n'))]
+                    elif items == 'paren-trailing-line':
+                        c = Node(kt.k('LineComment'), text=Str.lit('//c3'))
+                        cmts.append(c)
+                        inner = [it, Node(kt.k('Space'), text=Str.lit(' ')), c, Node(kt.k('Space'), text=Str.lit('\n'))]
+                    else:
+                        inner = [empty]
+                    kids += [Node(kt.k('LeftParen'), text=Str.lit('('))] + inner + [Node(kt.k('RightParen'), text=Str.lit(')'))]
                 else:
                     kids.append(Node(kt.k('Star'), text=Str.lit('*')))
             node = Node(kt.k('ModuleImport'), children=kids)
@@ -74,6 +99,8 @@ def explore(S, want=('C04', 'C06', 'C05')):
                 got = []
                 sw = False
                 for j, a in enumerate(at):
+                    if a[0] == 'o' and a[1] == 'items':
+                        got += [x.text.concrete() for x in passed if isinstance(x, Node) and x.kind in (kt.k('LineComment'), kt.k('BlockComment'))]
                     if a[0] == 't' and a[1].is_concrete():
                         s = a[1].concrete()
                         if s.startswith('/'):
@@ -85,7 +112,7 @@ def explore(S, want=('C04', 'C06', 'C05')):
                 if 'C06' in want:
                     ctx.must_hold(got == [c.text.concrete() for c in cmts], 'C06:import-comments-not-conserved', lambda mdl, mode=mode, at=at: dict(describe(mdl), layout=mode, atoms=show_atoms(at)))
                     has_items = any(a[0] == 'o' and a[1] == 'items' for a in at) or any(a[0] == 't' and a[1].is_concrete() and a[1].concrete() == '*' for a in at)
-                    ctx.must_hold(has_items == (items != 'none'), 'C06:import-items-lost', lambda mdl, mode=mode, at=at: dict(describe(mdl), layout=mode, atoms=show_atoms(at)))
+                    ctx.must_hold(has_items or items in ('none', 'paren-empty', 'paren-only-block', 'paren-only-line'), 'C06:import-items-lost', lambda mdl, mode=mode, at=at: dict(describe(mdl), layout=mode, atoms=show_atoms(at)))
             if cmts:
                 ctx.witness('import with comment')
         ob, ex = S.explore('import[%s,%s,%s]' % (g1, g2, items), 'convert_import with %s before and %s after the colon, items: %s' % (g1, g2, items), body)
@@ -99,7 +126,7 @@ def explore(S, want=('C04', 'C06', 'C05')):
 def corpus():
     gaps = {'none': '', 'space': ' ', 'block': ' /* c */ ', 'line': ' // c\n  '}
     for g1, g2 in itertools.product(gaps, gaps):
-        for tpl in ('#import "m.typ"%s:%s(a, b)\n', '#import "m.typ"%s:%sa, b\n', '#import "m.typ"%s:%s*\n', '#(import "m.typ"%s:%s(a, b))\n', '#{\n  import "m.typ"%s:%s(a, b)\n}\n'):
+        for tpl in ('#import "m.typ"%s:%s(\n  // foo, bar,\n)\n', '#import "m.typ"%s:%s(/* d */)\n', '#import "m.typ"%s:%s(a, b // d\n)\n', '#import "m.typ"%s:%s()\n', '#import "m.typ"%s:%s(a, b)\n', '#import "m.typ"%s:%sa, b\n', '#import "m.typ"%s:%s*\n', '#(import "m.typ"%s:%s(a, b))\n', '#{\n  import "m.typ"%s:%s(a, b)\n}\n'):
             yield tpl % (gaps[g1], gaps[g2])
 
 
